@@ -13,6 +13,8 @@
 (*                          (o = "never": its own context ended it, after  *)
 (*                          after_ms); intact: the buffer it was given     *)
 (*                          still holds the query                          *)
+(*   UpCtxDone(cid, after_ms)  the context of that exchange ended before the *)
+(*                          harness released it, after_ms after it started *)
 (*   Collected              schedule point: the collector took a result    *)
 (*   Cancel                 the harness ended the caller's context         *)
 (*   Return(k, cid)         Exec returned: reply of exchange cid / failed /*)
@@ -38,6 +40,7 @@ Ev == Trace[l]
 IsEvent(e) == l <= Len(Trace) /\ Ev.ev = e /\ l' = l + 1
 
 TimeoutSlackMs == 6500
+TimeoutMinMs == 4900
 
 TraceInit == l = 1 /\ Init /\ wcid = [i \in 1..5 |-> 0] /\ pt = FALSE
 
@@ -56,6 +59,13 @@ Logged ==
     \/ /\ IsEvent("Release") /\ Ev.intact
        /\ Ev.o = "never" => ("after_ms" \in DOMAIN Ev => Ev.after_ms <= TimeoutSlackMs)
        /\ \E i \in W : wcid[i] = Ev.cid /\ Finish(i, Ev.o)
+       /\ UNCHANGED <<wcid, pt>>
+    \* the context handed to an exchange ended before the harness released it (the harness upstream then
+    \* returns the context's error, like a real transport): allowed only once the call has returned
+    \* (stragglers may be told to stop) or when the 5 s upstream timeout has passed
+    \/ /\ IsEvent("UpCtxDone") /\ Ev.intact
+       /\ done \/ (Ev.after_ms >= TimeoutMinMs /\ Ev.after_ms <= TimeoutSlackMs)
+       /\ \E i \in W : wcid[i] = Ev.cid /\ Finish(i, "never")
        /\ UNCHANGED <<wcid, pt>>
     \/ /\ IsEvent("Collected") /\ pt
        /\ \E i \in W : Collect(i)
